@@ -156,11 +156,37 @@ def check(an, rep, tier):
                 b.slice.operand.value == 1
         ok = len(vstores) == 1 and all(o.value.value == 1. for o in others) \
             and into_last_core(vstores[0].targets[0])
+        # found-but-wrong: v stored into several cores / into another slot /
+        # a literal other than 1 in the other cores; no recognisable store at
+        # all is decided by the degree facet below
+        bad = (len(vstores) > 1) or (len(vstores) == 1 and others and
+                                     not ok)
         rep.add('U-deg', q, 'v stored into exactly one (the last) core, 1 '
-                'elsewhere', 'ok' if ok else 'violation',
+                'elsewhere', 'ok' if ok else ('violation' if bad else
+                                              'unknown'),
                 '' if ok else 'stores of v: %s ; other literals: %s'
                 % ([paths.src(mod, s) for s in vstores],
                    [paths.src(mod, s) for s in others]))
+    # the same as a value fact: the value enters the cores with total degree 1
+    for r in runs:
+        if r.qualname not in ('vectors.vector_delta',
+                              'matrices.matrix_delta'):
+            continue
+        rv = r.result
+        if rv.k != 'list' or not rv.items:
+            continue
+        if any(c.degq or c.deg_alt for c in rv.items):
+            rep.unknown('U-deg', r.qualname, 'degree of v over the cores (%s)'
+                        % r.tag(), 'degree of a core not established')
+            continue
+        degs = [(c.deg or {}).get('v', Fraction(0)) for c in rv.items]
+        tot = sum(degs)
+        one = sum(1 for x in degs if x != 0) == 1
+        rep.add('U-deg', r.qualname, 'degree of v over the cores (%s)'
+                % r.tag(), 'ok' if tot == 1 and one else 'violation',
+                '' if tot == 1 and one else 'the value enters the cores with '
+                'degrees %s: it must enter exactly one core, once'
+                % [str(x) for x in degs])
     # --- negative positions count from the end: the delta constructors must
     # place v by indexing (or after normalising the position), never through a
     # by-value comparison of the position with arange(n)
@@ -182,6 +208,7 @@ def check(an, rep, tier):
     fn_p = prog.func('utils._vector_index_prepare')
     fn_e = prog.func('utils._vector_index_expand')
     bad = []
+    undecided = []
     n_cases = 0
     for qq in (1, 2, 3):
         N = 1 << qq
@@ -190,13 +217,18 @@ def check(an, rep, tier):
             I = interp.Interp(prog, {})
             res = I.run_function(fn_p, {'q': INT(qq), 'i': INT(i)})
             raised = bool(I.raises) and not I.entry_returns
+            if I.raises and I.entry_returns:
+                undecided.append((qq, i))
+                continue
             if i >= N or i < -N:
                 if not raised:
                     bad.append('prepare(q=%d, i=%d) is not rejected' % (qq, i))
                 continue
             want = i if i >= 0 else N + i
-            if raised or not (res.k == 'int' and res.has_const() and
-                              res.c == want):
+            if not raised and not (res.k == 'int' and res.has_const()):
+                undecided.append((qq, i))       # value not folded
+                continue
+            if raised or res.c != want:
                 bad.append('prepare(q=%d, i=%d) -> %r, expected %d'
                            % (qq, i, res, want))
                 continue
@@ -206,12 +238,17 @@ def check(an, rep, tier):
             got = [x.c for x in r2.items] if r2.k == 'list' and \
                 r2.items is not None and all(x.has_const()
                                              for x in r2.items) else None
-            if got != bits:
+            if got is None:
+                undecided.append((qq, want))
+            elif got != bits:
                 bad.append('expand(q=%d, i=%d) -> %r, expected %s'
                            % (qq, want, got, bits))
     rep.add('F-bits', 'utils._vector_index_prepare/_expand',
             '%d (q, i) cases, q <= 3' % n_cases,
-            'ok' if not bad else 'violation', '; '.join(bad[:3]))
+            'violation' if bad else ('unknown' if undecided else 'ok'),
+            '; '.join(bad[:3]) if bad else (
+                'not folded to constants for %s' % undecided[:4]
+                if undecided else ''))
     # --- P-zero
     fn = prog.func('tensors.const')
     mod = fn.module
